@@ -1001,6 +1001,7 @@ func c19Props(r *Run, ps gts.Props, name string) {
 
 func propC19(r *Run) {
 	defer c19CliSelect(r)
+	defer c19RegexClauses(r)
 	defer c19CliSort(r)
 	defer c19CliClearDefine(r)
 	thorough := r.tier == "thorough"
